@@ -199,6 +199,28 @@ fn response_case(rng: &mut Rng, all: bool, rec: &mut Rec) {
     }
 }
 
+/// Every token character (RFC 9110 5.6.2) in a method name, at the start, in the middle and alone: a
+/// request head is well-formed with any of them, and the parser has to hand back that very method.
+const TCHARS: &[u8] = b"!#$%&'*+-.^_`|~09azAZ";
+fn method_token_case(idx: u64, rec: &mut Rec) {
+    let c = TCHARS[(idx as usize) % TCHARS.len()] as char;
+    let method = match idx as usize / TCHARS.len() {
+        0 => format!("{}", c),
+        1 => format!("M{}X", c),
+        2 => format!("{}ET", c),
+        _ => format!("LONG-EXTENSION-METHOD{}", c),
+    };
+    let head = format!("{} /t HTTP/1.1\r\nHost: h.test\r\n\r\n", method);
+    rec.call();
+    match full_req(4, head.as_bytes()) {
+        Ok(Some((n, m, _, _))) if n == head.len() && m == method => rec.cov("method-token/parsed"),
+        other => rec.fail(
+            &format!("C20/method-token-refused/0x{:02x}", c as u32),
+            format!("request head {:?} (method token containing {:?}): {:?}", head, c, other.map(|o| o.map(|v| (v.0, v.1)))),
+        ),
+    }
+}
+
 fn request_case(rng: &mut Rng, all: bool, rec: &mut Rec) {
     let lane = crate::core::lane_mode();
     let limit = if lane { *rng.pick(&[0usize, 1, 4]) } else { *rng.pick(&LIMITS) };
@@ -282,12 +304,15 @@ impl Property for P {
         vec![
             Workload::new("responses", tier.pick(3_000, 400_000), false, "response heads x prefixes, complete + partial parser"),
             Workload::new("requests", tier.pick(3_000, 400_000), false, "request heads x prefixes"),
+            Workload::new("method-tokens", (TCHARS.len() * 4) as u64, true, "every token character in a method name, in four positions"),
         ]
     }
     fn run_case(&self, wl: &str, idx: u64, seed: u64, rec: &mut Rec) {
         let mut rng = Rng::derive(seed, wl, idx);
         let all = idx % 4 == 0;
-        if wl == "responses" {
+        if wl == "method-tokens" {
+            method_token_case(idx, rec)
+        } else if wl == "responses" {
             response_case(&mut rng, all, rec)
         } else {
             request_case(&mut rng, all, rec)
